@@ -189,5 +189,11 @@ def run(prog: Program, rep: Report, tier: str):
     sub = _R("C07", tier)
     c16.run(prog, sub, tier)
     absorb(rep, sub, {"R16.1": "R07.7", "R16.2": "R07.7", "R16.3": "R07.7"})
+    from . import c11
+
+    sub = _R("C07", tier)
+    sub.rule("R07.7", "", 0)
+    c11.r11_7(prog, sub, rule="R07.7")
+    absorb(rep, sub, {"R07.7": "R07.7"})
     c03.r03_1(prog, rep, direction="unmarshal", rule="R07.5")
     c03.r03_1(prog, rep, direction="marshal", rule="R07.5")
